@@ -31,6 +31,7 @@ type c13Decl struct {
 	Place    string   // trailing / block1..3 / both / none / detached
 	Script   string
 	Marker   string
+	Adjacent bool
 	UseLines []int // lines where the name is used (0-based)
 	UseCols  []int
 	DeclLine int
@@ -67,7 +68,11 @@ func c13GenFile(r *Rng, idx int) (string, []c13Decl) {
 		case "detached":
 			block = []string{pick()}
 		}
-		lines = append(lines, "") // separate from the previous declaration
+		if r.Bool() {
+			lines = append(lines, "") // separate from the previous declaration
+		} else {
+			d.Adjacent = true // directly below the previous declaration (and below its trailing comment, if it has one)
+		}
 		for _, b := range block {
 			lines = append(lines, d.Marker+b)
 		}
@@ -287,7 +292,7 @@ func runC13(c *Ctx) {
 		}
 	})
 	c.Finish("generated declarations (local number/string/table, global, global function, local function, table member functions t.f / t:m) x comment placement "+
-		"(trailing, block of 1-3 lines above, both, none, block detached by a blank line) x script (ASCII, Latin-1, Cyrillic, Greek, CJK, Hangul, astral, mixed) x marker "+
+		"(trailing, block of 1-3 lines above, both, none, block detached by a blank line; separated from the previous declaration by a blank line or directly below it) x script (ASCII, Latin-1, Cyrillic, Greek, CJK, Hangul, astral, mixed) x marker "+
 		"(--, ---, -- *); hover at the declaration and at a use must show a label with the identifier, `local` iff declared local, the literal as written, parameters "+
 		"in order, and as documentation exactly the attached comment's bytes (after the tool's documented marker clean-up). distinct_nontrivial = distinct (file, position) hovered", 200)
 }
